@@ -16,7 +16,7 @@ from common import *
 
 PROP = 'C15'
 EINVALCOORDS, EEDGE, ESTRIDE, ENEGATIVECNT, EIOMISMATCH = -40, -57, -58, -210, -209
-LEAN_FILES = ['PnVerif/Model/Scs.lean', 'PnVerif/Spec/InBounds.lean', 'PnVerif/Lemmas/ScsLemmas.lean',
+LEAN_FILES = ['PnVerif/Model/IntraNode.lean', 'PnVerif/Lemmas/IntraNodeLemmas.lean', 'PnVerif/Model/Scs.lean', 'PnVerif/Spec/InBounds.lean', 'PnVerif/Lemmas/ScsLemmas.lean',
               'PnVerif/Props/C15.lean', 'Driver/C15.lean']
 XSZ = {1: 1, 3: 2, 4: 4, 5: 4, 6: 8, 7: 1, 8: 2, 9: 4, 10: 8, 11: 8}
 SIG_F15 = 'check_EEDGE-stride-product-overflow-accepted'
@@ -608,6 +608,226 @@ def run_api(hexe, drv, wd, scen, runtag):
 
 
 # ------------------------------------------------------------------------------------------
+# intra-node aggregation stream (ncmpio_intra_node.c : flatten_req / flatten_subarray, aggregator merge)
+# ------------------------------------------------------------------------------------------
+INTRA_A = '/* construct array of buffer addresses */'
+INTRA_B = 'if (npairs == 1) {'
+
+
+def build_intra_harness(tree, wd):
+    """copy the aggregator's sort/merge/pack/coalesce statements of intra_node_aggregation() verbatim
+    (between two source comments) and compile harness/c15_intra.c around them; fail closed"""
+    src = open(os.path.join(tree, 'src/drivers/ncmpio/ncmpio_intra_node.c')).read()
+    if src.count(INTRA_A) != 1 or src.count(INTRA_B) != 1 or src.index(INTRA_A) > src.index(INTRA_B):
+        raise BuildFailed('ncmpio_intra_node.c: the aggregator merge code was not found between its two markers '
+                          '(%r ... %r)' % (INTRA_A, INTRA_B))
+    body = src[src.index(INTRA_A):src.index(INTRA_B)]
+    code = re.sub(r'/\*.*?\*/', '', body, flags=re.S)
+    if code.count('{') != code.count('}') or re.search(r'\bMPI_[A-Z][A-Za-z_]*\s*\(', code) or 'qsort_off_len_buf' not in code:
+        raise BuildFailed('ncmpio_intra_node.c: the aggregator merge code is no longer a self-contained statement list:\n' + body[:800])
+    with open(os.path.join(wd, 'c15_intra_merge.inc'), 'w') as f:
+        f.write(body)
+    exe = os.path.join(wd, 'c15i')
+    cc(tree, [os.path.join(VERIF, 'harness/c15_intra.c')], exe,
+       extra=['-DHAVE_CONFIG_H', '-I' + wd, '-I' + os.path.join(tree, 'src/drivers/ncmpio'), '-I' + os.path.join(tree, 'src/include'),
+              '-I' + os.path.join(tree, 'src/drivers/include')])
+    return exe
+
+
+def fline(isrec, begin, xsz, recsize, shape, st, ct, sd, null_stride=False):
+    v = lambda tag, x: tag + ' ' + ' '.join(str(y) for y in x)
+    return 'F %d %d %d %d %d %s %s %s %s' % (isrec, begin, xsz, recsize, len(shape), ' '.join(str(x) for x in shape),
+                                             v('S', st), v('C', ct), 'TN' if null_stride else v('T', sd))
+
+
+def gen_flatten(rng, tier):
+    lines = []
+    sizes = [2, 3, 4, 5, 7]
+
+    def mkvar(nd, isrec):
+        shape = rng.shuffle(sizes)[:nd]          # non-square: all extents differ
+        xsz = rng.choice([1, 2, 4, 8])
+        begin = 4 * rng.range(0, 300)
+        inner = xsz
+        for n in shape[(1 if isrec else 0):]:
+            inner *= n
+        recsize = (inner + 3) // 4 * 4 + 4 * rng.range(0, 5) if isrec else 0
+        if isrec and rng.chance(1, 4):
+            recsize = inner                       # the only record variable: records packed
+        return shape, xsz, begin, recsize
+
+    def requests(shape, isrec, exhaustive):
+        dims = []
+        for i, n in enumerate(shape):
+            ext = 6 if (isrec and i == 0) else n
+            opts = [(s, c, k) for s in range(ext) for c in range(1, ext - s + 1) for k in range(1, ext + 1)
+                    if s + (c - 1) * k < ext and (c > 1 or k == 1)]
+            dims.append(opts)
+        if exhaustive:
+            return prod_ranges(dims)
+        return [[rng.choice(o) for o in dims] for _ in range(exhaustive_n)]
+    # 1-D and 2-D: every in-bounds (start,count,stride), fixed and record
+    for nd in (1, 2):
+        for isrec in (0, 1):
+            for rep in range(2 if tier == 'thorough' else 1):
+                shape, xsz, begin, recsize = mkvar(nd, isrec)
+                shape = [min(n, 4) for n in shape] if nd == 2 else shape
+                if nd == 2 and shape[0] == shape[1]:
+                    shape[1] = shape[0] + 1 if shape[0] < 4 else 3
+                for req in requests(shape, isrec, True):
+                    st, ct, sd = [r[0] for r in req], [r[1] for r in req], [r[2] for r in req]
+                    lines.append(fline(isrec, begin, xsz, recsize, shape, st, ct, sd))
+                    if all(k == 1 for k in sd) and rng.chance(1, 3):
+                        lines.append(fline(isrec, begin, xsz, recsize, shape, st, ct, sd, True))
+    # 3-D and 4-D: seeded
+    for nd in (3, 4, 3, 4):
+        for isrec in (0, 1):
+            for rep in range(12 if tier == 'thorough' else 4):
+                shape, xsz, begin, recsize = mkvar(nd, isrec)
+                exhaustive_n = 700 if tier == 'thorough' else 160
+                for req in requests(shape, isrec, False):
+                    st, ct, sd = [r[0] for r in req], [r[1] for r in req], [r[2] for r in req]
+                    lines.append(fline(isrec, begin, xsz, recsize, shape, st, ct, sd))
+                    if all(k == 1 for k in sd):
+                        lines.append(fline(isrec, begin, xsz, recsize, shape, st, ct, sd, True))
+    # scalars
+    lines.append('F 0 64 8 0 0 S C T')
+    return lines
+
+
+def gen_merge(rng, tier):
+    """-> (line, disjoint?) : inputs of 1-4 ranks, offsets/lengths in multiples of 4"""
+    out = []
+    for _ in range(6000 if tier == 'thorough' else 1500):
+        nranks = rng.range(1, 4)
+        k = rng.range(1, 14)
+        ivs, pos = [], 4 * rng.range(0, 10)
+        for _i in range(k):
+            if rng.chance(1, 2):
+                pos += 4 * rng.range(1, 6)          # gap; else file-adjacent to the previous interval
+            ln = 4 * rng.range(1, 5)
+            ivs.append((pos, ln)); pos += ln
+        mode = rng.below(4)
+        ranks = [[] for _ in range(nranks)]
+        if mode == 0:                                # interleaved round robin (file-adjacent pairs on different ranks)
+            for i, iv in enumerate(ivs):
+                ranks[i % nranks].append(iv)
+        elif mode == 1:                              # contiguous runs per rank (file- and memory-adjacent)
+            per = (k + nranks - 1) // nranks
+            for i, iv in enumerate(ivs):
+                ranks[min(i // per, nranks - 1)].append(iv)
+        else:                                        # random owner, runs of random length
+            r = 0
+            for iv in ivs:
+                if rng.chance(1, 2):
+                    r = rng.below(nranks)
+                ranks[r].append(iv)
+        if mode == 3:                                # several requests per rank posted out of file order
+            ranks = [rng.shuffle(x) for x in ranks]
+        if rng.chance(1, 5):
+            ranks = rng.shuffle(ranks)
+        ins = [iv for r in ranks for iv in r]
+        out.append(('M %d %s' % (len(ins), ' '.join('%d:%d' % iv for iv in ins)), True))
+    for _ in range(600 if tier == 'thorough' else 150):      # overlapping inputs, distinct offsets: tie only
+        k = rng.range(2, 8)
+        offs = rng.shuffle(list(range(0, 60)))[:k]
+        ins = [(4 * o, 4 * rng.range(1, 8)) for o in offs]
+        out.append(('M %d %s' % (len(ins), ' '.join('%d:%d' % iv for iv in ins)), False))
+    return out
+
+
+def run_intra(V, tree, wd, drv, rng, tier):
+    """-> dict(prop_fail, tie_diffs, n, distinct, dist)"""
+    prop_fail, tie_diffs, dist, distinct = [], [], {}, set()
+    exe = build_intra_harness(tree, wd)
+    flines = gen_flatten(rng, tier)
+    mcases = gen_merge(rng, tier)
+    lines = flines + [m[0] for m in mcases]
+    # the Lean driver wants an explicit stride vector
+    def lean_line(l):
+        if l.endswith(' TN'):
+            nd = int(l.split()[5])
+            return l[:-3] + ' T' + ' 1' * nd
+        return l
+    inp = '\n'.join(lines) + '\n'
+    pc = subprocess.run([exe], input=inp, stdout=subprocess.PIPE, stderr=subprocess.PIPE, text=True)
+    pl = subprocess.run([drv], input='\n'.join(lean_line(l) for l in lines) + '\n', stdout=subprocess.PIPE, stderr=subprocess.PIPE, text=True)
+    co, lo = pc.stdout.split('\n'), pl.stdout.split('\n')
+    if pc.returncode != 0 or len(co) < len(lines) or len(lo) < len(lines):
+        tie_diffs.append(('intra harness/driver crashed', 'C rc=%s (%d/%d lines) Lean rc=%s (%d lines) %s' %
+                          (pc.returncode, len(co), len(lines), pl.returncode, len(lo), (pc.stderr + pl.stderr)[-300:])))
+        return dict(prop_fail=prop_fail, tie_diffs=tie_diffs, n=0, distinct=distinct, dist=dist)
+    seen = set()
+    for i, line in enumerate(lines):
+        if line in seen:
+            continue
+        seen.add(line)
+        if line.startswith('F '):
+            t = line.split()
+            isrec, xsz, nd = int(t[1]), int(t[3]), int(t[5])
+            ct_ = co[i].split()
+            m = re.match(r'p=(\S+) e=(\S+)$', lo[i])
+            if len(ct_) != 3 or not m:
+                tie_diffs.append((line, co[i][:200], lo[i][:200])); continue
+            cpairs = [] if ct_[2] == '-' else [tuple(map(int, x.split(':'))) for x in ct_[2].split(',')]
+            mpairs = [] if m.group(1) == '-' else [tuple(map(int, x.split(':'))) for x in m.group(1).split(',')]
+            spec = [] if m.group(2) == '-' else list(map(int, m.group(2).split(',')))
+            got = [o + j * xsz for o, l in cpairs for j in range(l // xsz)]
+            tag = 'intra:flatten:%s:%dD' % ('rec' if isrec else 'fix', nd)
+            dist[tag] = dist.get(tag, 0) + 1
+            distinct.add(line)
+            if int(ct_[0]) != 0 or got != spec or any(l % xsz for o, l in cpairs):
+                prop_fail.append(('C15:intra:flatten_req:%s:%dD' % ('record' if isrec else 'fixed', nd),
+                                  'flatten_req (intra-node aggregation) emits offset-length pairs that do not cover exactly the elements of the request: '
+                                  'elements %s..., specified %s...' % (got[:12], spec[:12]),
+                                  dict(stream='intra-flatten', line=line, c_pairs=cpairs[:40], spec_offsets=spec[:80], model_pairs=mpairs[:40])))
+            elif cpairs != mpairs:
+                tie_diffs.append((line, 'pairs', cpairs[:20], mpairs[:20]))
+        else:
+            disjoint = dict(mcases)[line]
+            mc = re.match(r's=(\S+) f=(\S+) w=(\S+) n=(-?\d+)$', co[i])
+            ml = re.match(r's=(\S+) a=(\S+) f=(\S+)$', lo[i])
+            if not mc or not ml:
+                tie_diffs.append((line, co[i][:200], lo[i][:200])); continue
+            ins = [tuple(map(int, x.split(':'))) for x in line.split()[2:]]
+            cf = [tuple(map(int, x.split(':'))) for x in mc.group(2).split(',')]
+            cw = [] if mc.group(3) == '-' else list(map(int, mc.group(3).split(',')))
+            cs = [tuple(map(int, x.split(':'))) for x in mc.group(1).split(',')]
+            ms = [tuple(map(int, x.split(':'))) for x in ml.group(1).split(',')]
+            ma = [tuple(map(int, x.split(':'))) for x in ml.group(2).split(',')]
+            mf = [tuple(map(int, x.split(':'))) for x in ml.group(3).split(',')]
+            mw = [(b + 4 * j) // 4 for o, l, b in ma for j in range(l // 4)]
+            tag = 'intra:merge:%s:%d' % ('disjoint' if disjoint else 'overlap', min(len(ins), 9))
+            dist[tag] = dist.get(tag, 0) + 1
+            distinct.add(line)
+            fwords = [o + 4 * j for o, l in cf for j in range(l // 4)]
+            cmap = sorted(zip(fwords, cw))
+            if disjoint:
+                want, pos_ = [], 0
+                for o, l in ins:
+                    for j in range(l // 4):
+                        want.append((o + 4 * j, pos_)); pos_ += 1
+                sorted_ok = all(cs[j][0] <= cs[j + 1][0] for j in range(len(cs) - 1)) and sorted(cs) == sorted((o, l, b) for (o, l), b in zip(ins, _prefix(ins)))
+                if cmap != sorted(want) or len(fwords) != len(cw) or int(mc.group(4)) != 4 * len(want) or not sorted_ok:
+                    prop_fail.append(('C15:intra:aggregator-merge:byte-map',
+                                      'the aggregator (sort/merge/pack/coalesce of intra_node_aggregation) does not move exactly the bytes of the file-disjoint inputs: '
+                                      '(file word, source word) %s..., specified %s...' % (cmap[:10], sorted(want)[:10]),
+                                      dict(stream='intra-merge', line=line, c_file_pairs=cf, c_wr_buf_ids=cw[:80], c_sorted=cs, model_merged=ma, model_file_pairs=mf)))
+                    continue
+            if cs != ms or cf != mf or cw != mw:
+                tie_diffs.append((line, 'sorted/file pairs/wr_buf', (cs, cf, cw[:30]), (ms, mf, mw[:30])))
+    return dict(prop_fail=prop_fail, tie_diffs=tie_diffs, n=len(seen), distinct=distinct, dist=dist,
+                samples=[flines[len(flines) // 2], mcases[0][0]])
+
+
+def _prefix(ins):
+    out, a = [], 0
+    for o, l in ins:
+        out.append(a); a += l
+    return out
+
+
+# ------------------------------------------------------------------------------------------
 def run_check(tier, seed):
     V = Verdict(PROP, tier, seed)
     local_findings(V)
@@ -619,7 +839,7 @@ def run_check(tier, seed):
         'guards of the theorems: ndims > 0 (checked by every caller), extents >= 0, a stride vector exists only in the vars/varm forms',
         'single process (the multi-rank behaviour of rejected collective requests belongs to C08, defect F2)',
     ]
-    V.cov['trusted_base'] = TRUSTED_BASE_COMMON + ['harness/c15_scs.c, checks/c15.py generators and image oracle (differential testing)']
+    V.cov['trusted_base'] = TRUSTED_BASE_COMMON + ['harness/c15_scs.c, harness/c15_intra.c (+ the statements of intra_node_aggregation() copied between source markers), checks/c15.py generators and image oracle (differential testing)']
     tree = build_impl('plain')
     wd = workdir('c15')
     try:
@@ -735,20 +955,35 @@ def run_check(tier, seed):
                 dist[k_] = dist.get(k_, 0) + v_
         n_api, n_img, script = A['n_api'] + W['n_api'], A['n_img'] + W['n_img'], A['script']
         log('[S4] api: %d requests (%d whole-file image comparisons) in %.1fs' % (n_api, n_img, t2.s()))
-        V.cov['evaluations'] = n_unit + n_api
+        # ---------------- intra-node aggregation stream (flatten_req / aggregator merge of ncmpio_intra_node.c)
+        t3 = Timer()
+        try:
+            I = run_intra(V, tree, wd, drv, SplitMix64(seed * 104729 + 19), tier)
+        except BuildFailed as ex:
+            I = dict(prop_fail=[], tie_diffs=[('harness c15_intra.c cannot be built around ncmpio_intra_node.c (functions renamed or the aggregator code restructured)', str(ex)[-1200:])],
+                     n=0, distinct=set(), dist={}, samples=[])
+        prop_fail += I['prop_fail']; tie_diffs += I['tie_diffs']; distinct |= I['distinct']
+        for k_, v_ in I['dist'].items():
+            dist[k_] = dist.get(k_, 0) + v_
+        n_intra = I['n']
+        log('[S4] intra: %d flatten_req / aggregator-merge cases through the real code and the Lean model in %.1fs' % (n_intra, t3.s()))
+        V.cov['evaluations'] = n_unit + n_api + n_intra
         V.cov['distinct_nontrivial'] = len(distinct)
-        V.cov['traces_validated_against_impl'] = n_unit + n_api - len(tie_diffs)
+        V.cov['traces_validated_against_impl'] = n_unit + n_api + n_intra - len(tie_diffs)
         V.cov['unit_tuples'] = n_unit
         V.cov['api_requests'] = n_api
         V.cov['api_image_comparisons'] = n_img
+        V.cov['intra_node_cases'] = n_intra
         V.cov['rule'] = ('unit: every (start,count,stride) in [-1,n+1]^3 per dimension, 1-D n<=3 and 2-D n<=2 (thorough 4 / 3), var1/vara/vars/varm forms, NULL start/count/stride, '
                          'fixed/record x read/write x strict/relaxed x classic/CDF-5, plus seeded random 3-D tuples and large shapes (boundary-biased), run through the real static '
                          'checker; api: seeded mostly-valid requests (25% with one or two injected errors, 10% zero-length) through var1/vara/vars/varm(imap)/varn/iput/bput/flexible, '
                          'whole file dumped after every request. non-trivial = rejected by the real code, or accepted with a dimension on a boundary (count 0, start = extent, last index = extent-1, full extent); '
-                         'api requests count when rejected, empty, or moving at least one element; distinct = distinct request lines')
+                         'api requests count when rejected, empty, or moving at least one element; distinct = distinct request lines; '
+                         'intra: flatten_req on fixed and record variables of 1-4 dimensions with pairwise different extents, every in-bounds (start,count,stride) for 1-D/2-D, seeded for 3-D/4-D, '
+                         'NULL stride; aggregator merge on file-disjoint inputs of 1-4 ranks (interleaved / contiguous / random ownership, file- and memory-adjacent runs, out-of-order requests) and overlapping inputs')
         V.cov['distribution'] = dist
         V.cov['samples'] = [klines[0], klines[len(klines) // 3], klines[len(klines) // 2], klines[-1]] + \
-                           ([script[3], script[len(script) // 2]] if len(script) > 4 else []) + \
+                           ([script[3], script[len(script) // 2]] if len(script) > 4 else []) + I.get('samples', []) + \
                            ['theorem checkSCS_iff_partial (c r) (hne : r.dims ≠ []) (hs : ∀ d ∈ r.dims, 0 ≤ d.shape) (hstr : r.hasStride → c.needCount) (henv : NoOvf r) : checkSCS c64 c r = NC_NOERR ↔ InBounds c r']
         # ---- S4m API-level "mix" programs (checks/apigen.gen_mix_program): several interleaving strided nonblocking requests per
         #      rank completed by one wait, varn calls with many permuted segments, 1-3 ranks, against the abstract dataset
